@@ -3,10 +3,13 @@
     definitions of Csc/Spec.v (a file that contains nothing else); proofs are in
     Csc/Lemmas*.v.  Every theorem holds for all matrices of all sizes over any
     commutative ring with decidable equality ([Laws O]); [C16_laws_Z]/[C16_laws_R] show the
-    hypothesis is met by the integers (the ring the correspondence runs in) and the reals. *)
+    hypothesis is met by the integers (the ring the correspondence runs in) and the reals.
+    The norms additionally need a total order compatible with [abs] ([OrdLaws O]), met by the
+    same two instances ([C16_ordlaws_Z]/[C16_ordlaws_R]). *)
 From Coq Require Import List ZArith Reals.
 Require Import Clarabel.Base.Ops Clarabel.Csc.Model Clarabel.Csc.Spec.
 Require Import Clarabel.Csc.LemmasStruct Clarabel.Csc.LemmasAlg.
+Require Import Clarabel.Csc.LemmasSym Clarabel.Csc.LemmasOrd Clarabel.Csc.LemmasBlock.
 
 Theorem C16_laws_Z : Laws OpsZ.
 Proof. split; [exact RingLawsZ | exact Z.eqb_eq]. Qed.
@@ -59,3 +62,37 @@ Theorem C16_gemv_T : forall T (O : Ops T), stmt_gemv_T O.
 Proof. exact @gemv_T_ok. Qed.
 Theorem C16_sums : forall T (O : Ops T), stmt_sums O.
 Proof. exact @sums_ok. Qed.
+Theorem C16_symv : forall T (O : Ops T), stmt_symv O.
+Proof. exact @symv_ok. Qed.
+Theorem C16_quad_form : forall T (O : Ops T), stmt_quad_form O.
+Proof. exact @quad_form_ok. Qed.
+
+Theorem C16_ordlaws_Z : OrdLaws OpsZ.
+Proof. exact OrdLawsZ. Qed.
+Theorem C16_ordlaws_R : OrdLaws OpsR.
+Proof. exact OrdLawsR. Qed.
+Theorem C16_maxabs_unique : forall T (O : Ops T), stmt_maxabs_unique O.
+Proof. exact @maxabs_unique_ok. Qed.
+Theorem C16_col_norms : forall T (O : Ops T), stmt_col_norms O.
+Proof. exact @col_norms_ok. Qed.
+Theorem C16_row_norms : forall T (O : Ops T), stmt_row_norms O.
+Proof. exact @row_norms_ok. Qed.
+Theorem C16_col_norms_sym : forall T (O : Ops T), stmt_col_norms_sym O.
+Proof. exact @col_norms_sym_ok. Qed.
+Theorem C16_norms_from : forall T (O : Ops T), stmt_norms_from O.
+Proof. exact @norms_from_ok. Qed.
+
+Theorem C16_zeros : forall T (O : Ops T), stmt_zeros O.
+Proof. exact @zeros_ok. Qed.
+Theorem C16_identity : forall T (O : Ops T), stmt_identity O.
+Proof. exact @identity_ok. Qed.
+Theorem C16_blockdiag : forall T (O : Ops T), stmt_blockdiag O.
+Proof. exact @blockdiag_ok. Qed.
+Theorem C16_blockdiag_blocks : forall T (O : Ops T), stmt_blockdiag_blocks O.
+Proof. exact @blockdiag_blocks_ok. Qed.
+Theorem C16_hvcat_dim_check : forall T, stmt_hvcat_dim_check (T:=T).
+Proof. exact @hvcat_dim_check_ok. Qed.
+Theorem C16_hvcat : forall T (O : Ops T), stmt_hvcat O.
+Proof. exact @hvcat_ok. Qed.
+Theorem C16_offsets_cover : stmt_offsets_cover.
+Proof. exact offsets_cover_ok. Qed.
